@@ -146,6 +146,7 @@ networks:
     labels: {foo: bar}
 volumes:
   vol: {driver: local, driver_opts: {foo: bar}, labels: {foo: bar}, name: custom-vol}
+  extvol: {external: true, name: outside-vol}
 secrets:
   sec: {file: ./secret_data, labels: {foo: bar}}
 configs:
